@@ -6,7 +6,7 @@ import Mathlib.Tactic.Ring
 
 open Matrix
 
-namespace GT
+namespace GT.Act
 
 variable {K : Type*} [Field K] {n k : ℕ}
 
@@ -83,4 +83,4 @@ theorem toMatrix_wordD {K : Type} [Field K] {G : Type*} [Inhabited K] (gens : G 
     | cons g w ih => intro M; simp only [List.foldl_cons]; rw [ih, DMat.toMatrix_mul]
   rw [this, DMat.toMatrix_one]
 
-end GT
+end GT.Act
